@@ -1,6 +1,7 @@
 /-
   C15 — property theorems (and non-vacuity examples) ONLY.  Helper lemmas: `Lemmas.lean`, `Inv.lean`,
-  `Steps.lean`, `SpecLemmas.lean`, `Outside.lean`, `Ops.lean`.
+  `Steps.lean`, `SpecLemmas.lean`, `Outside.lean`, `Ops.lean`, `Termination.lean`, `Values.lean`; `Tables.lean` =
+  the interpretation of the tables re-extracted from /repo.
 
   Property text: "For every set of cooperating tasks and every order of wake-ups, the single-threaded
   executor polls a task again whenever it has been woken since it last returned pending - including
@@ -18,6 +19,10 @@ import YashModel.Executor.Steps
 import YashModel.Executor.SpecLemmas
 import YashModel.Executor.Outside
 import YashModel.Executor.Ops
+import YashModel.Executor.Termination
+import YashModel.Executor.Values
+import YashModel.Executor.Tables
+import YashModel.Executor.Nested
 namespace YashModel.Executor
 
 /-- a state the executor can be in: `n` steps into the run of some task system -/
@@ -516,5 +521,205 @@ theorem spec_checks_meaning (s : State) (a b : List Nat) (log : List Ev) :
    noPollAfterFinB_iff log⟩
 
 example : nodupB [1, 2, 1] = false ∧ bracketedB [.poll 0, .poll 1] = false := by decide
+
+/-! ### extension round: termination of the run loop, the delivered VALUE, the result of `step`, the
+    remaining Spec checks, the tables re-extracted from the code -/
+
+/-- ★ Every `Executor::step` makes progress towards the stall: the work left (`work`: actions not yet
+    executed in all slots and in the pool, plus one per unfinished task) never grows, and a step that leaves
+    it unchanged — the poll of an emptied slot, of a `wait` without token, of a `join` on an unfinished child
+    — leaves the queue exactly one entry shorter; the queue never holds more than `cap` (the number of tasks
+    that can ever exist) entries.  So `stallBound` strictly decreases. -/
+theorem step_makes_progress (s : State) (h : Reachable s) (r : State × Bool) (hs : step s = some r) :
+    cap r.1 = cap s ∧
+    (work r.1 < work s ∨ (work r.1 = work s ∧ r.1.queue.length + 1 = s.queue.length)) ∧
+    r.1.queue.length ≤ cap s ∧ stallBound r.1 < stallBound s := by
+  have hi := reachable_inv h
+  obtain ⟨hc, hm⟩ := step_measure hi.qlt r hs
+  exact ⟨hc, hm, hc ▸ queue_le_cap (inv_step hi r hs), stallBound_step hi r hs⟩
+
+example : step (init true [[.yield, .wait 0], [.signal 0]] 2) ≠ none := by decide
+
+/-- ★ `Executor::run_until_stalled` terminates, with an explicit bound ("still open" of the earlier rounds:
+    the model's loop had a step budget and nothing showed that the budget is never what ends it): from every
+    reachable state, after `stallBound s` calls of `step` the queue is empty; any larger budget gives the same
+    final state, the same count and the flag "stalled" — the budget is not observable. -/
+theorem run_until_stalled_terminates (s : State) (h : Reachable s) (n c : Nat) (hn : stallBound s ≤ n) :
+    (stepN n s).queue = [] ∧ (runUntilStalled n s c).2.2 = true ∧
+    runUntilStalled n s c = runUntilStalled (stallBound s) s c := by
+  have hi := reachable_inv h
+  have hq := stepN_stalls n hi hn
+  refine ⟨hq, ?_, runUntilStalled_budget n hi hn c⟩
+  rw [runUntilStalled_flag, hq]; rfl
+
+example : stallBound (stepN 2 (init true [[.yield, .wait 0], [.signal 0]] 2)) ≤ 9 := by decide
+
+/-- ★ … for every task system, with the bound read off the case text: (number of actions + number of
+    scripts) × (number of scripts + 1) + number of roots `step` calls always reach the stall.  (The driver
+    checks `stallBound ≤ maxSteps` for every case it runs, so "end=cut" can never be printed.) -/
+theorem stall_bound_of_system (sticky : Bool) (scripts : List Script) (roots : Nat) :
+    stallBound (init sticky scripts roots) =
+      (scripts.map fun sc => sc.length + 1).sum * (scripts.length + 1) + min roots scripts.length ∧
+    ∀ n c, stallBound (init sticky scripts roots) ≤ n →
+      (runUntilStalled n (init sticky scripts roots) c).2.2 = true :=
+  ⟨stallBound_init sticky scripts roots,
+   fun n c hn => (run_until_stalled_terminates _ ⟨sticky, scripts, roots, 0, rfl⟩ n c hn).2.1⟩
+
+/-- … and inside ANY operation sequence (outside wake-ups, signals, spawns, dropped wakers, …): a
+    `run_until_stalled` batch started within the bound ends with an empty queue. -/
+theorem batch_reaches_stall (sticky : Bool) (scripts : List Script) (roots : Nat) (ops : List XOp) :
+    let x := xRunAll { s := init sticky scripts roots } ops
+    stallBound x.s ≤ maxSteps → (xRun x .rus).s.queue = [] := by
+  intro x hb
+  have h : XInv x := xinv_runAll _ ops (xinv_init sticky scripts roots)
+  by_cases hd : x.dead = true
+  · simp only [xRun, hd, if_true]; exact (h.dead hd).1
+  · simp only [xRun, hd, if_false]
+    show (runUntilStalled maxSteps x.s 0).1.queue = []
+    rw [runUntilStalled_state]
+    exact stepN_stalls maxSteps h.inv hb
+
+example : stallBound (xRunAll { s := init true [[.wait 0, .yield], [.wait 0]] 2 }
+    [.step, .step, .byRef 0 0, .clone 0 1, .wake 0 2]).s ≤ maxSteps := by decide
+
+/-- The `bool` of `Executor::step` ("still open" of the earlier rounds): `Some(true)` exactly when the popped
+    task is finished afterwards (its future returned `Ready` now, or its slot was empty already); the slots
+    of all other existing tasks are untouched by the step. -/
+theorem step_result (s : State) (h : Reachable s) (r : State × Bool) (hs : step s = some r) :
+    ∃ t q, s.queue = t :: q ∧ (r.2 = true ↔ r.1.fut t = none) ∧
+      ∀ u, u < s.ntasks → u ≠ t → r.1.fut u = s.fut u := by
+  have hi := reachable_inv h
+  unfold step at hs
+  cases hq : s.queue with
+  | nil => simp [hq] at hs
+  | cons t q =>
+    simp only [hq, Option.some.injEq] at hs
+    subst hs
+    have ht : t < s.ntasks := hi.qlt t (by rw [hq]; simp)
+    obtain ⟨h1, h2⟩ := poll_result { s with queue := q } t ht
+    exact ⟨t, q, rfl, h1, h2⟩
+
+/-- ★ "delivers each spawned task's result to its receiver": WHAT is delivered (the earlier rounds proved
+    "once"; that the number is the one the future returned was only compared in the run).  After every
+    operation sequence of every task system, for every task `c`: a value has been returned (`ret c`) exactly
+    if `c` is finished; it is `value c` — computed from the values `c` itself received from its children, so
+    values travel through chains of relays unchanged; a relay in state `Computed v` holds exactly the returned
+    value; and the list of values the relay has handed to a receiver (`recv c`: the parent's `join`, or
+    `try_receive`) is `[that value]` if the relay is `Done` and empty otherwise. -/
+theorem value_delivered (sticky : Bool) (scripts : List Script) (roots : Nat) (ops : List XOp) :
+    let s := (xRunAll { s := init sticky scripts roots } ops).s
+    ∀ c, c < s.ntasks →
+      ((s.ret c).isSome = true ↔ s.fut c = none) ∧
+      (∀ v, s.ret c = some v → v = value s c) ∧
+      (∀ v, s.relay c = .computed v → s.ret c = some v) ∧
+      s.recv c = (if s.relay c = .done then (s.ret c).toList else []) ∧
+      (s.relay c = .done → s.recv c = [value s c]) := by
+  intro s c hc
+  have hx : XInv { s := init sticky scripts roots } := xinv_init sticky scripts roots
+  have hv : ValInv s := val_runAll _ ops hx (val_init sticky scripts roots)
+  have hi : XInv (xRunAll { s := init sticky scripts roots } ops) := xinv_runAll _ ops hx
+  refine ⟨hv.retfin c hc, hv.retval c, hv.comp c, hv.recvd c, ?_⟩
+  intro hd
+  have hfin : s.fut c = none := (hi.inv.sync c hc).mpr (by rw [hd]; rfl)
+  have hsome := (hv.retfin c hc).mpr hfin
+  cases hr : s.ret c with
+  | none => rw [hr] at hsome; cases hsome
+  | some v =>
+    have := hv.recvd c
+    rw [hd, hr] at this
+    rw [this, ← hv.retval c v hr]
+    rfl
+
+/-- a chain: task 2 returns 3, task 1 joins it and returns 2 + 7·3 = 23, task 0 joins that: 1 + 7·23 = 162 -/
+example : let s := (xRunAll { s := init false [[.spawn, .join], [.spawn, .join], []] 1 } [.rus, .try_ 0]).s
+    s.recv 2 = [3] ∧ s.recv 1 = [23] ∧ s.recv 0 = [162] := by decide
+
+/-- The two checks of the Spec column that `spec_checks_meaning` left one-directional mean exactly the clauses
+    they are named after, too. -/
+theorem spec_checks_meaning_rest (s : State) :
+    (stallB s = true ↔
+      (s.queue = [] → ∀ t acts, t < s.ntasks → s.fut t = some acts → blockedB s t acts = true)) ∧
+    (relayB s = true ↔
+      ∀ c, c < s.ntasks → s.delivered c = (if s.relay c = .done then 1 else 0) ∧
+        (s.fut c = none ↔ (s.relay c).sent = true)) :=
+  ⟨stallB_iff s, relayB_iff s⟩
+
+example : stallB { (init false [[.wait 0]] 1) with queue := [] } = false := by decide
+
+open YashModel.Generated.ExecutorTables in
+/-- ★ The relay protocol of the model IS the table re-extracted from forwarder.rs on every run
+    (`tools/tables/executor.py`): for every relay, `relaySend` / `tryReceive` / `recvPoll` of Model.lean are
+    the interpretation (`sendBy` / `tryBy` / `pollBy`, Tables.lean) of the arm the Rust `match` takes for that
+    variant — so an edited arm of `Sender::send`, `Receiver::try_receive` or `Receiver::poll` breaks this
+    theorem, not only the differential run. -/
+theorem forwarder_tables_agree (r : Relay) (v w : Nat) (alive : Bool) :
+    sendBy sendStores (sendArm r.tag) r v = some (relaySend r v) ∧
+    tryBy (tryReceiveArm r.tag) r alive = some (tryReceive r alive) ∧
+    pollBy (pollArm r.tag) r w = some (recvPoll r w) ∧
+    hasPayload r.tag = (match r with | .polled _ => true | .computed _ => true | _ => false) := by
+  cases r <;> cases alive <;> exact ⟨rfl, rfl, rfl, rfl⟩
+
+open YashModel.Generated.ExecutorTables in
+/-- ★ The queue discipline of the model IS the one re-extracted from task.rs / executor.rs on every run:
+    `Task::wake` = `enq` (duplicate check, then push to the extracted end), `Executor::step` pops the
+    extracted end and polls that task, `enqueue` / `enqueue_forwarding` (all spawn paths) push the new task
+    to the extracted end. -/
+theorem queue_tables_agree :
+    (∀ q t, enq q t = enqBy wakeDedup wakePush q t) ∧
+    (∀ s, step s = (popAt stepPop s.queue).map fun p => poll { s with queue := p.2 } p.1) ∧
+    (∀ s own sc, (spawnNew s own sc).queue = pushAt enqueueForwardingPush s.queue s.ntasks) ∧
+    enqueuePush = enqueueForwardingPush := by
+  refine ⟨?_, ?_, fun _ _ _ => rfl, rfl⟩
+  · intro q t
+    unfold enq enqBy
+    by_cases h : t ∈ q
+    · simp [h, wakeDedup]
+    · simp [h, wakeDedup, wakePush, pushAt]
+  · intro s
+    unfold step
+    cases s.queue <;> rfl
+
+/-! ### `Executor::step` called from inside a poll (was an assumption: "futures do not call `step`") -/
+
+open Nested in
+/-- ★ With futures that call `Executor::step` from inside their own poll (nested polling of other tasks, any
+    depth, any self- and cross-wake-ups in between), for every system of scripts and every number of top-level
+    steps: the queue never holds a task twice; the trace is well nested and the polls it leaves open are
+    exactly the borrowed slots, without repetition — no future is ever entered while its poll is in progress;
+    no future is entered after it returned `Ready`, its slot stays empty; between top-level steps no slot is
+    borrowed unless the recursion guard has panicked; the depth budget of the definition is never exhausted;
+    and the executable Spec check printed by the driver holds. -/
+theorem nested_step_safe (scripts : List NScript) (n : Nat) :
+    let s := nStepN n (nInit scripts)
+    s.queue.Nodup ∧
+    (replay s.log [] = some s.stack ∧ s.stack.Nodup) ∧
+    (s.log.Pairwise fun e e' => ∀ t, e = .exit t true → e' ≠ .enter t) ∧
+    (∀ t, NEv.exit t true ∈ s.log → s.fut t = none) ∧
+    (s.panicked = false → s.stack = []) ∧ s.starved = false ∧ nCheck s = none := by
+  intro s
+  have h : NTop s := ntop_stepN n (ntop_init scripts)
+  exact ⟨h.inv.qn, ⟨h.inv.rp, h.inv.sn⟩, h.inv.nef, h.inv.fin, h.idle, h.inv.ns, nCheck_of h⟩
+
+open Nested in
+/-- three levels of nesting, then the guard: task 2 wakes task 0 (whose poll is in progress) and steps -/
+example : (nStepN 5 (nInit [[.nest, .nest], [.nest], [.wake 0, .nest]])).log =
+    [.enter 0, .enter 1, .enter 2, .guard 0] := by decide
+
+open Nested in
+/-- ★ The recursion guard of `Task::poll` ("never polls … re-entrantly" when a task whose poll is in progress
+    has been woken and a nested `step` pops it): the future is NOT entered — the only effect is the guard
+    event and the panic, every slot is as before; and a task whose poll is not in progress is entered
+    normally (first new event `enter t`) when its slot is occupied. -/
+theorem recursion_guard (d : Nat) (s : NState) (t : Nat) :
+    (t ∈ s.stack → nPoll (d + 1) s t = { nlog s (.guard t) with panicked := true }) ∧
+    (t ∉ s.stack → s.fut t = none → nPoll (d + 1) s t = nlog s (.noop t)) ∧
+    (∀ log', wellNestedB log' = true → ∀ l1 l2 l3, log' = l1 ++ [.enter t] ++ l2 ++ [.enter t] ++ l3 →
+      ∃ b, NEv.exit t b ∈ l2) := by
+  refine ⟨fun h => by simp [nPoll, h], fun h hf => by simp [nPoll, h, hf], ?_⟩
+  intro log' hw l1 l2 l3 e
+  exact wellNested_no_reentry l1 l2 l3 t (e ▸ hw)
+
+open Nested in
+example : (1 : Nat) ∈ ({ stack := [2, 1, 0] } : NState).stack := by decide
 
 end YashModel.Executor
